@@ -15,8 +15,8 @@ SortedInts(S) == IF S = {} THEN <<>> ELSE LET m == CHOOSE x \in S : \A y \in S :
 (* The same notions on a grid graph written with cell arithmetic and a frontier search: what GraphDefs defines by a
    closure over the edge list costs O(n^2 m) in TLC, too slow for the scale-up boards (289 - 300 cells).  GridAgree
    (checked by TLC for every record of at most 100 cells) ties them to the definitions. *)
-Nbrs(h, w, c) == {d \in {c - 1, c + 1, c - w, c + w} :
-                    d >= 0 /\ d < h * w /\ (d = c - 1 => c % w # 0) /\ (d = c + 1 => d % w # 0)}
+Nbrs(h, w, c) == {d \in (IF c % w # 0 THEN {c - 1} ELSE {}) \cup (IF (c + 1) % w # 0 THEN {c + 1} ELSE {}) \cup {c - w, c + w} :
+                    d >= 0 /\ d < h * w}       \* left and right only inside the row (no horizontal neighbour at all when w = 1)
 RECURSIVE GrowGrid(_, _, _, _, _)
 GrowGrid(h, w, S, Reached, Frontier) ==
     LET N == ((UNION {Nbrs(h, w, c) : c \in Frontier}) \cap S) \ Reached
